@@ -419,6 +419,7 @@ func exec(p prog, c *hx.Case) error {
 					n = o.N
 				}
 				members := append(append([]string{}, curOps...), curSRs...)
+				before, _ := snapshotCount() // (before the acknowledgement that completes the checkpoint is delivered)
 				for _, id := range members {
 					if n == 0 {
 						break
@@ -436,7 +437,6 @@ func exec(p prog, c *hx.Case) error {
 					}
 				}
 				if len(acked) == len(members) {
-					before, _ := snapshotCount()
 					ok := false
 					for i := 0; i < 40000 && !ok; i++ {
 						if n, _ := snapshotCount(); n > before {
